@@ -10,6 +10,8 @@ PIECES = [b"{", b"}", b"{{", b"}}", b"-", b'"', b"`", b"\\", b"/", b"*", b" ", b
           b"\xc3\xa9", b"\xe2\x82\xac", b"a", b"b", b"x", b"{{-", b"-}}", b"{{- ", b" -}}", b"{{/*", b"*/}}",
           b"{}}", b"{{{", b"}}}", b"--{{--", b"--}}--", b'{{"{{"}}', b'{{"{"}}', b"<b>", b"&", b"1 < 2", b"{{.}}",
           b"{{ x }}", b"--", b"${x}", b"$", b". ", b"word", b"{ {", b"} }",
+          # characters other layers of the pipeline give a meaning to (printf verbs, escapes, entities, NUL-free controls)
+          b"%", b"50% off", b"%s", b"%d%%", b"%!", b"\\n", b"&amp;", b"&#34;", b"\x0b", b"#{x}", b"!{x}", b"| ", b"//",
           b"\x0c", b"\xc2\xa0", b" \x0c", b"\xc2\xa0 "]   # form feed, no-break space: white space the lexer must NOT trim
 BRACEY = [b"{", b"}", b"{{", b"}}", b"{}}", b"{{{", b"}}}", b"{", b"}"]
 BLOCK_TAGS = [b"div", b"p", b"ul", b"li", b"h1", b"section", b"td", b"main", b"x-y"]
